@@ -202,7 +202,7 @@ class RandomTree:
             now = d["ts"] - w.cfg.max_future - rng.choice([1, 1, 0])
         return now
 
-    def step(self, now_slack=0, force=None, parent=None):
+    def step(self, now_slack=0, force=None, parent=None, include=None):
         """force: None | "" (a valid block) | a mutation name (HDR_MUTS / TX_MUTS / "reward+1" ...)."""
         rng, w = self.rng, self.w
         if parent is None:
@@ -215,6 +215,11 @@ class RandomTree:
         ntx = 0 if self.hdr else rng.choice([0, 1, 1, 2, 3])
         if force in TX_MUTS or force in ("hugeout", "mut_cross"):
             ntx = max(ntx, 1)
+        if include is not None:                  # given transactions (e.g. the ones pending in a node's pool) instead of fresh ones
+            for t in include:
+                txs.append(t)
+                fees += t["_fee"]
+            ntx = 0
         for pos in range(1, ntx + 1):
             t = self.valid_tx(rows, bid * 10 + pos, used)
             if t:
